@@ -43,7 +43,11 @@ m = {"version": 1,
      "hooks": {"guard": "PUAN_VERIF", "enable": "environment variable PUAN_VERIF=1 set before `import puan` (the check script re-execs itself with it, PYTHONPATH=/repo so the working tree is imported)",
                "baseline_off_cmd": "python3 /verif/tools/baseline.py /repo", "source_commits": ["ae95066"], "add_only": True},
      "engines": [{"name": "tlc+trace", "path": "/verif/check", "serves_properties": [c["property_id"] for c in checks],
-                  "kind_free_text": "TLC model checking of /verif/spec/*.tla (P1), replay of TLC-enumerated cases into the library (P2), TLC trace validation of the recorded events (P3)"}],
+                  "kind_free_text": "TLC model checking of /verif/spec/*.tla (P1), replay of TLC-enumerated cases into the library (P2), TLC trace validation of the recorded events (P3)"},
+                 {"name": "extra-behaviours", "path": "/verif/check EXTRA", "serves_properties": [],
+                  "kind_free_text": "same pipeline for behaviour beyond the listed properties (spec/PuanExtra.tla): short forms, listings, reduced polyhedra, row distributions, neighbourhoods, reduce2d/ranking, misc helpers, constructor validation; reports EXTRA-BEHAVIOUR lines, never VIOLATION"},
+                 {"name": "selftest", "path": "/verif/check SELFTEST", "serves_properties": [],
+                  "kind_free_text": "binding demonstration: 29 single-field corruptions of recorded events must be rejected by TLC with the expected clause, the unchanged events accepted"}],
      "checks": checks, "not_applicable": na,
      "notes": "exit codes: 0 held, 1 VIOLATION, 2 machinery failure. Known findings: /verif/known_findings.jsonl. Seeded changes used to test the checks: /verif/seeded/."}
 json.dump(m, open(f"{V}/MANIFEST.json", "w"), indent=1)
